@@ -391,7 +391,7 @@ Qed.
 (* ------------------------------------------------------------------ Part 5: + - and int * (through float seconds) *)
 Definition B31 : Z := 2147483648000000.   (* 2^31 * 10^6 *)
 
-(* The float premises (NOT proved; validated on every run by the pairs-add / pairs-sub / pairs-mul / band-* streams):
+(* The float premises (explicit premises here; PROVED in Proofs/FloatRoundTripC10.v through Flocq; also validated on every run by the pairs-add / pairs-sub / pairs-mul / band-* streams):
    timedelta(seconds = ts(a) +- ts(b)) and timedelta(seconds = ts(R) * k) are exact while operands and result are below 2^31 s. *)
 Definition addsub_float_exact : Prop := forall a b, Z.abs a < B31 -> Z.abs b < B31 ->
   (Z.abs (a + b) < B31 -> td_us_of_float_seconds (fadd (total_seconds a) (total_seconds b)) = Ok (a + b))
